@@ -439,3 +439,56 @@ pub open spec fn d_tr7(id: u32, doc: u32, src: u32, tg: Seq<u32>, ev: Seq<Seq<u8
         Dec::Unknown => Dec::Unknown,
     }
 }
+
+// ---- helpers for the generated record decoders (spec_dec_gen.rs) ---------------------------------------------
+/// an empty string has no bytes and vice versa
+pub proof fn lemma_empty_utf8(s: Seq<char>)
+    ensures
+        (encode_utf8(s).len() == 0) == (s.len() == 0),
+{
+    reveal_with_fuel(encode_utf8, 2);
+    if s.len() > 0 {
+        assert(encode_utf8(s).len() > 0);
+    }
+}
+
+pub open spec fn opt_ccv(c: Option<CommonContent>) -> Option<CcV> {
+    match c {
+        Some(x) => Some(ccv(x)),
+        None => None,
+    }
+}
+
+/// the state name is part of the invoke record only when the id has to be generated from it
+pub open spec fn inv_parent(i: Invoke) -> Seq<u8> {
+    if sb(i.invoke_id).len() == 0 { sb(i.parent_state_name) } else { Seq::<u8>::empty() }
+}
+
+pub open spec fn invv(i: Invoke) -> InvV {
+    InvV {
+        invoke_id: sb(i.invoke_id), parent: inv_parent(i), doc_id: i.doc_id, src_expr: i.src_expr, src: i.src, type_expr: i.type_expr,
+        type_name: i.type_name, external_id_location: sb(i.external_id_location), autoforward: i.autoforward, finalize: i.finalize,
+        content: opt_ccv(i.content), params: params_v(params_seq(i.params)), name_list: strs_v(i.name_list@),
+    }
+}
+
+/// the state name is part of the send record only when an id is generated from it (idlocation set)
+pub open spec fn send_parent(e: SendParameters) -> Seq<u8> {
+    if sb(e.name_location).len() != 0 { sb(e.parent_state_name) } else { Seq::<u8>::empty() }
+}
+
+pub open spec fn sendv(e: SendParameters) -> SendV {
+    SendV {
+        name: sb(e.name), target: e.target, target_expr: e.target_expr, content: opt_ccv(e.content), name_list: strs_v(e.name_list@),
+        name_location: sb(e.name_location), parent: send_parent(e), params: params_v(params_seq(e.params)), event: e.event,
+        event_expr: e.event_expr, type_value: e.type_value, type_expr: e.type_expr, delay_ms: e.delay_ms, delay_expr: e.delay_expr,
+    }
+}
+
+/// the send view of an element (an arbitrary SendV for the other kinds: only used on results of read_executable_content_send)
+pub open spec fn ecb_send(v: EcV) -> SendV {
+    match v {
+        EcV::Send(x) => sendv(x),
+        _ => arbitrary(),
+    }
+}
